@@ -214,9 +214,17 @@ class SimLoop(asyncio.BaseEventLoop):
             t, parked = self.stalled[tag]
             if t <= self._now:
                 del self.stalled[tag]
-                # a paused process sees: what was ready, then I/O, then timers
-                parked.sort(key=lambda h: 0 if not isinstance(h, asyncio.TimerHandle) else 1)
-                self._ready.extendleft(reversed(parked))
+                self.sim.rec("unstall", tag[0] + str(tag[1]), None)
+                # a resumed process sees: the callbacks that were ready, its sockets readable again (the datagrams
+                # that piled up go back to the socket queues: one per socket per iteration), then the due timers
+                deliveries = [h for h in parked if h._callback == self.sim._deliver]
+                plain = [h for h in parked if h._callback != self.sim._deliver and not isinstance(h, asyncio.TimerHandle)]
+                timers = [h for h in parked if isinstance(h, asyncio.TimerHandle)]
+                for h in reversed(deliveries):
+                    sock, payload, src = h._args
+                    sock.queue.appendleft((self._now, 0, payload, src))
+                self._ready.extend(plain)
+                self._ready.extend(timers)
 
     def stall(self, tag, duration):
         self.stalled[tag] = (self._now + duration, [])
